@@ -156,6 +156,9 @@ let dispatch cmd r =
   | "gbernsen_px" -> let a = next_q r in let b = next_q r in let c = next_q r in let d = next_q r in let e = next_q r in
       out_bool (gbernsen_px a b c d e)
   | "soft_px" -> let f = next_q r in let t = next_q r in let q = qred (soft_threshold_px f t) in out_list [q.qnum; Zpos q.qden]
+  | "thin" -> let f = next_arr r in out_list (thin f)
+  | "euler" -> let n8 = next_int r = 1 in let f = next_arr r in out_list [euler_x4 n8 f]
+  | "convexhull" -> let f = next_arr r in out_list (List.concat_map (fun (y, x) -> [y; x]) (convexhull f))
   | _ -> failwith ("unknown command " ^ cmd)
 
 let () =
